@@ -31,6 +31,7 @@ import (
 var (
 	dbMu    sync.Mutex
 	dbs     = map[string]gdbi.GraphDB{}
+	dbDirs  = map[string]string{}
 	workDir string
 	nameSeq int64
 )
@@ -53,7 +54,24 @@ func DB(driver string) gdbi.GraphDB {
 		panic(fmt.Sprintf("INFRA: cannot open %s store: %v", driver, err))
 	}
 	dbs[driver] = db
+	dbDirs[driver] = dir
 	return db
+}
+
+// Recycle closes the process-wide store of a driver and removes its directory; the
+// next DB(driver) call opens a fresh one. Long campaigns call it every few hundred
+// cases so that scans do not slow down on accumulated garbage.
+func Recycle(driver string) {
+	dbMu.Lock()
+	defer dbMu.Unlock()
+	if db, ok := dbs[driver]; ok {
+		db.Close()
+		delete(dbs, driver)
+	}
+	if d, ok := dbDirs[driver]; ok {
+		os.RemoveAll(d)
+		delete(dbDirs, driver)
+	}
 }
 
 // WorkDir is the directory handed to pipeline.Run for temporary stores.
@@ -68,7 +86,7 @@ func WorkDir() string {
 
 // FreshName returns a graph name not used before in this process.
 func FreshName() string {
-	return fmt.Sprintf("g%d", atomic.AddInt64(&nameSeq, 1))
+	return fmt.Sprintf("g%07d", atomic.AddInt64(&nameSeq, 1))
 }
 
 func ToGdbi(el *model.Element) *gdbi.DataElement {
